@@ -15,6 +15,13 @@
 (*               place the key "equals" the new contents                   *)
 (*   "aliasres"  a hit hands out the stored result itself: what the caller *)
 (*               does to it changes what the next call returns             *)
+(*   "zerokey"   a copying memo with no "empty" state: its zero value is a *)
+(*               real key (Language(0), the smallest element of Vals) with *)
+(*               the zero result (a nil map) - seeded change C13n: the     *)
+(*               FIRST call of a process with that key is answered from    *)
+(*               the zero value; any other first call repairs the memo.    *)
+(*               This is why C13's programs must sometimes begin cold with *)
+(*               each language and not always with the same opening.       *)
 (* F is an injective stand-in for the encoding.                            *)
 (***************************************************************************)
 EXTENDS Integers, TLC
@@ -28,7 +35,10 @@ VARIABLES buf,        \* contents of the caller's buffer
 vars == <<buf, keyIsBuf, keyVal, resCell, shared, last>>
 None == -1                  \* "nothing yet" (an integer: TLC does not compare strings with numbers)
 F(v) == v + 100
-Init == buf \in Vals /\ keyIsBuf = FALSE /\ keyVal = None /\ resCell = None /\ shared = FALSE /\ last = <<None, None>>
+ZeroKey == CHOOSE v \in Vals : \A w \in Vals : v <= w
+Init == /\ buf \in Vals /\ keyIsBuf = FALSE /\ shared = FALSE /\ last = <<None, None>>
+        /\ keyVal = IF MemoImpl = "zerokey" THEN ZeroKey ELSE None
+        /\ resCell = IF MemoImpl = "zerokey" THEN 0 ELSE None
 
 Refill(v) == buf' = v /\ UNCHANGED <<keyIsBuf, keyVal, resCell, shared, last>>      \* the caller overwrites its buffer in place
 Wipe == shared /\ resCell' = 0 /\ UNCHANGED <<buf, keyIsBuf, keyVal, shared, last>>    \* the caller zeroes the result it was handed
@@ -36,7 +46,7 @@ Wipe == shared /\ resCell' = 0 /\ UNCHANGED <<buf, keyIsBuf, keyVal, shared, las
 Call(fresh) ==
     LET arg == buf
         keyNow == IF keyIsBuf THEN buf ELSE keyVal          \* what the memo's key reads as at this moment
-        hit == MemoImpl # "none" /\ resCell # None /\ keyNow = arg
+        hit == MemoImpl # "none" /\ (MemoImpl = "zerokey" \/ resCell # None) /\ keyNow = arg
         ret == IF hit THEN resCell ELSE F(arg)
     IN /\ last' = <<arg, ret>>
        /\ IF MemoImpl = "none" THEN UNCHANGED <<keyIsBuf, keyVal, resCell, shared>>
